@@ -110,7 +110,7 @@ def check(ctx):
                                     continue        # a dict key: hashable, never a list or a configuration
                                 nested = True
                     if nested:
-                        ctx.ob("forward.nested-containers", f2, n2.ast, False,
+                        ctx.ob("forward.nested-containers", f2, "elements of the value handed to %s" % g.qualname, False,
                                "%s hands the *elements* of its value to %s, which renders configurations through an edge without the mask; "
                                "Config.to_tree intercepts only the outermost list, so configurations inside nested containers "
                                "(ListField(ListField(schema)), DictField(..., ListField(schema))) are rendered unmasked" % (f2.qualname, g.qualname),
@@ -372,8 +372,8 @@ def intercepted(an, to_tree, g, edge_node):
         if g0.path(f, lambda n: n is c, may_raise=oracle, stop=lambda n: n in loop_heads, from_successors=True):
             return False, base + " (the intercepting branch falls through to the encoder)"
         fdom = dominating_guards(an, to_tree, f)
-        cdom = {t for t, _ in dominating_guards(an, to_tree, c)}
-        specific = [t for t, tr in fdom if t not in cdom]
+        cdom = {(t, tr) for t, tr in dominating_guards(an, to_tree, c)}
+        specific = [t for t, tr in fdom if (t, tr) not in cdom]      # taken with this outcome on the way to f, not on the way to c
         if not specific:
             return False, base + " (no guard selects the intercepting branch)"
         Config = an.model.cls("Config")
@@ -400,9 +400,19 @@ def intercepted(an, to_tree, g, edge_node):
                 rd_ = reaching_defs(to_tree)
                 tn = [t_ for t_ in g0.nodes if t_.kind == "test" and t_.ast is e]
                 defs_ = rd_.reaching(tn[0], e.id) if tn else []
-                consts = sorted(repr(d_.value.value) for d_ in defs_ if d_.kind == "assign" and isinstance(d_.value, ast.Constant))
-                if len(defs_) == 2 and consts == ["False", "True"]:
-                    fd = [d_ for d_ in defs_ if d_.value.value is False][0]
+                falses = [d_ for d_ in defs_ if d_.kind == "assign" and isinstance(d_.value, ast.Constant) and d_.value.value is False]
+                others = [d_ for d_ in defs_ if d_ not in falses]
+
+                def init_ok(d_):
+                    # the flag starts as True, or as a conjunction of tests of the value itself (a non-empty list)
+                    if d_.kind != "assign" or d_.value is None:
+                        return False
+                    if isinstance(d_.value, ast.Constant):
+                        return d_.value.value is True
+                    conj = d_.value.values if isinstance(d_.value, ast.BoolOp) and isinstance(d_.value.op, ast.And) else [d_.value]
+                    return all(not isinstance(c_, ast.Name) and atom_ok(c_) for c_ in conj)
+                if len(falses) == 1 and len(others) == 1 and init_ok(others[0]):
+                    fd = falses[0]
                     for t2, tr2 in dominating_guards(an, to_tree, fd.node):
                         a2 = t2.ast
                         if (not tr2) and isinstance(a2, ast.Call) and isinstance(a2.func, ast.Name) and a2.func.id == "isinstance" and len(a2.args) == 2 \
